@@ -1266,6 +1266,7 @@ class RewriteAtQuery(NodeTransformer):
             not self.replaced
             and hasattr(node, "_location")
             and node._location == self.search
+            and not isinstance(node, (Constant, Str))
         ):
             self.replaced = True
             return self.replacement_node
